@@ -16,6 +16,7 @@ def handle (j : Json) : Except String Json := do
   | "diff" => hDiff j
   | "walk" => hWalk j
   | "sync" => hSync j
+  | "fault" => hFault j
   | "sendproto" => hSendProto j
   | "recvproto" => hRecvProto j
   | "hostile" => hHostile j
